@@ -172,11 +172,24 @@ func runResp(c respCase) harness.Result {
 		if fcode := v.(packet.Response).FunctionCode(); fcode != c.Resp.FC {
 			return harness.Fail("%s: FunctionCode()=%d want %d", p.Name, fcode, c.Resp.FC)
 		}
-		if re := v.(packet.Response).Bytes(); !bytes.Equal(re, frame) {
+		re := v.(packet.Response).Bytes()
+		if !bytes.Equal(re, frame) {
 			return harness.Fail("%s: re-encoding gives\n  %x\nframe was\n  %x", p.Name, re, frame)
 		}
 		if !bytes.Equal(in, frame) {
 			return harness.Fail("%s modified its input", p.Name)
+		}
+		// the re-encoded frame is the caller's: parsing and re-encoding another frame (same kind, every byte behind the header
+		// inverted where the layout allows) must not change it
+		other := append([]byte(nil), frame...)
+		if c.Framing == spec.TCP {
+			other[0] ^= 0xFF
+		}
+		if v2, err := p.Fn(other); err == nil && !cat.IsNilValue(v2) {
+			_ = v2.(packet.Response).Bytes()
+		}
+		if !bytes.Equal(re, frame) {
+			return harness.Fail("%s: the frame returned by Bytes() changed after another response was parsed and encoded: now %x, was %x", p.Name, re, frame)
 		}
 	}
 	nt := len(c.Resp.Data) > 0 || c.Resp.FC == 5 || c.Resp.FC == 6 || c.Resp.FC == 15 || c.Resp.FC == 16 || c.Resp.FC == 17
